@@ -42,12 +42,18 @@ def union_crit_pairs(A, B):
             result_pairs.append(a)
         # A, B > pos_to_slope_interp > sum_slopes > slope_to_pos_interp
         else:
+            # ordinate of the sum at its first critical pair; an operand that
+            # starts further right contributes 0 there
+            y_start = (a[0][1] if a[0][0] <= b[0][0] else 0) + (
+                b[0][1] if b[0][0] <= a[0][0] else 0
+            )
             result_pairs.append(
                 slope_to_pos_interp(
                     sum_slopes(
                         pos_to_slope_interp(a),
                         pos_to_slope_interp(b),
-                    )
+                    ),
+                    y_start,
                 )
             )
     return result_pairs
@@ -73,7 +79,7 @@ def pos_to_slope_interp(l: list) -> list:
     return output
 
 
-def slope_to_pos_interp(l: list) -> list:
+def slope_to_pos_interp(l: list, y_start=0) -> list:
     """Convert positions of (x-value, slope) pairs to critical pairs.
 
     Intended
@@ -83,8 +89,11 @@ def slope_to_pos_interp(l: list) -> list:
     ------
     list
         [(xi, yi)]_i for i in len(function in landscape)
+
+    `y_start` is the y-value at the first x-value (slopes alone do not
+    determine it).
     """
-    output = [[l[0][0], 0]]
+    output = [[l[0][0], y_start]]
     # for sequential pairs in [(xi,mi)]_i
     for [[x0, m], [x1, _]] in zip(l, l[1:]):
         # uncover y0 and y1 from slope formula
